@@ -9,7 +9,7 @@ TRI_OV = ["N", "N", "N", "T", "T", "F", "F", "1", "0"]
 TRI_ARG = ["N", "N", "N", "T", "T", "F", "F", "1", "0", "S", "E"]
 # separators / padding: ASCII, NBSP, EM SPACE, and the code points str.strip() and the regex \s treat as space that are easy to forget:
 # U+0085 NEL, U+2028 LINE SEPARATOR, U+001C FILE SEPARATOR
-SEP = [",", ",", ", ", " , ", " ,", ",,", ",\n", ",\t ", ",\u00a0", "\u2003, ", ",\x85", "\u2028,", ",\x1c ", "\x85,\u2028"]
+SEP = [",", ",", ", ", " , ", " ,", ",,", ",\n", ",\t ", ",\u00a0", "\u2003, ", ",\x85", "\u2028,", ",\x1c ", "\x85,\u2028", ",\x85,", ",\x1c\u2028,"]
 LEAD = ["", "", "", " ", ",", ", ", "\n", "\x85", "\u2028 ", "\x1c"]
 TAIL = ["", "", "", " ", ",", ",, ", " \t", "\x85", " \u2028", "\x1c"]
 # texts of '===' (any run of non-space characters): plain, version-like, with a comma (D19), case-fold confusables whose str.lower() is
